@@ -26,6 +26,7 @@ use crate::vm::{self, El, Op};
 
 pub mod c08;
 pub mod c12;
+pub mod c13;
 pub mod c18;
 
 pub type Pk = DefiniteDescriptorKey;
@@ -685,7 +686,13 @@ pub struct GShape {
     /// native encode/decode round-trip findings (C04)
     pub decode_notes: Vec<String>,
     pub decoded_ty: Option<(spec::S, String)>,
+    /// C13: the real interpreter's verdicts on library satisfactions and their mutations
+    pub itab: Option<c13::GITab>,
 }
+
+/// (candidate cap per shape, seed) for the C13 interpreter tables; 0 = do not build them
+pub static C13_CAP: std::sync::atomic::AtomicUsize = std::sync::atomic::AtomicUsize::new(0);
+pub static C13_SEED: std::sync::atomic::AtomicUsize = std::sync::atomic::AtomicUsize::new(0);
 
 fn map_placeholder(fix: &Fix, p: &Placeholder<Pk>) -> Result<Option<El2>, String> {
     let key = |k: &Pk| fix.key_id(k).ok_or_else(|| "unknown key in template".to_string());
@@ -943,6 +950,11 @@ pub fn shape_from_ms<Ctx: CtxInfo>(fix: &Fix, ms: &Miniscript<Pk, Ctx>, nkeys: u
             return Err("witness longer than MAXW".into());
         }
     }
+    let c13_cap = C13_CAP.load(std::sync::atomic::Ordering::Relaxed);
+    let itab = match (&desc, with_rows && c13_cap > 0) {
+        (Some(d), true) => Some(c13::table::<Ctx>(fix, &ms, d, &format!("{}", ms), nkeys, &abs, &rel, &wits, &rows, c13_cap, C13_SEED.load(std::sync::atomic::Ordering::Relaxed) as u64)),
+        _ => None,
+    };
     // encode -> decode round trip with the real decoder (native; C04 / C06)
     let mut decode_notes = vec![];
     let mut decoded_ty = None;
@@ -1011,6 +1023,7 @@ pub fn shape_from_ms<Ctx: CtxInfo>(fix: &Fix, ms: &Miniscript<Pk, Ctx>, nkeys: u
         family: 0,
         decode_notes,
         decoded_ty,
+        itab,
     })
 }
 
@@ -1189,6 +1202,10 @@ pub fn main() {
     let out_dir = args.get(4).cloned().unwrap_or_else(|| "src/generated".into());
     std::fs::create_dir_all(&out_dir).unwrap();
     let fix = Fix::new();
+    if std::env::var("MSVERIF_PROP").map(|p| p == "C13").unwrap_or(false) {
+        C13_CAP.store(if tier == "thorough" { 160 } else { 40 }, std::sync::atomic::Ordering::Relaxed);
+        C13_SEED.store(seed as usize, std::sync::atomic::Ordering::Relaxed);
+    }
     match what {
         "shapes" => gen_shapes(&fix, tier, seed, &out_dir),
         "c08" => c08::generate(&fix, tier, seed, &out_dir),
@@ -1245,6 +1262,14 @@ fn gen_shapes(fix: &Fix, tier: &str, seed: u64, out_dir: &str) {
     // index of shapes
     let _ = writeln!(src, "pub static ALL: [&Shape; {}] = [{}];", all.len(), (0..all.len()).map(|i| format!("&SH{i}")).collect::<Vec<_>>().join(","));
     write_out(out_dir, "shapes.rs", &src);
+    // C13 interpreter tables (separate file; empty unless the run is for C13)
+    let mut isrc = String::from(c13::PRELUDE);
+    for (i, g) in all.iter().enumerate() {
+        if let Some(t) = &g.itab {
+            c13::emit(&mut isrc, &format!("IC{i}"), &format!("SH{i}"), t);
+        }
+    }
+    write_out(out_dir, "c13.rs", &isrc);
     crate::gen_harness::emit_wrappers(&all, out_dir);
     // info for the evidence file
     let mut info = String::from("{");
@@ -1262,7 +1287,29 @@ fn gen_shapes(fix: &Fix, tier: &str, seed: u64, out_dir: &str) {
         first = false;
         let _ = write!(info, "{{\"shape\": \"SH{}\", \"miniscript\": \"{}\", \"ctx\": {}, \"type\": \"{}\", \"script_hex\": \"{}\", \"rows\": {}, \"palette\": \"{}\"}}", i, json_escape(&g.name), g.ctx, g.ty_str, g.script_hex, g.rows.len(), g.pal.name);
     }
-    info.push_str("], \"native_roundtrip_checked\": ");
+    info.push_str("], \"c13\": ");
+    {
+        let tabs: Vec<(usize, &c13::GITab)> = all.iter().enumerate().filter_map(|(i, g)| g.itab.as_ref().map(|t| (i, t))).collect();
+        let ncand: usize = tabs.iter().map(|(_, t)| t.cands.len()).sum();
+        let ncase: usize = tabs.iter().map(|(_, t)| t.cases.len()).sum();
+        let nacc: usize = tabs.iter().map(|(_, t)| t.cases.iter().filter(|c| c.accept).count()).sum();
+        let nlib: usize = tabs.iter().map(|(_, t)| t.base_locks.len()).sum();
+        let _ = write!(info, "{{\"interpreter_tables\": {}, \"candidate_witnesses\": {}, \"library_satisfactions\": {}, \"interpreter_runs\": {}, \"accepted_by_interpreter\": {}, \"samples\": [", tabs.len(), ncand, nlib, ncase, nacc);
+        let mut first = true;
+        for (k, (i, t)) in tabs.iter().enumerate() {
+            if k % (tabs.len() / 6 + 1) != 0 || t.cases.is_empty() {
+                continue;
+            }
+            let c = t.cases.iter().rev().find(|c| c.accept).unwrap_or(&t.cases[t.cases.len() - 1]);
+            if !first {
+                info.push(',');
+            }
+            first = false;
+            let _ = write!(info, "{{\"shape\": \"SH{}\", \"miniscript\": \"{}\", \"candidate\": \"{}\", \"witness\": \"{:?}\", \"nLockTime\": {}, \"nSequence\": {}, \"interpreter_accepts\": {}, \"reported\": \"sigs={:#b} pres={:#b} abs={:#b} rel={:#b}\", \"error\": \"{}\"}}", i, json_escape(&all[*i].name), t.how[c.cand], t.cands[c.cand], t.reps[c.lv].0, t.reps[c.lv].1, c.accept, c.sigs, c.pres, c.absm, c.relm, json_escape(&c.err));
+        }
+        info.push_str("]}");
+    }
+    info.push_str(", \"native_roundtrip_checked\": ");
     let _ = write!(info, "{}", all.len());
     info.push_str(", \"native_findings\": [");
     let mut first = true;
